@@ -27,6 +27,7 @@ def scenarios(quick):
             (R(T.blocking(T.chain3(maxseq=2))), 'SpecPrompt', {})] +
            ([] if quick else [
                (R(T.blocking(T.tee(maxseq=2), ['S'])), 'SpecPrompt', {}),
+               (R(T.chain3_none_empty(maxseq=3)), 'SpecPrompt', {}),
                (R(T.blocking(T.tee_rejoin2(maxseq=1, skip=()))), 'SpecZL', {}),
                (R(T.chain3(maxseq=2, skip=(1,), slow=True)), 'SpecPrompt', dict(lq=8)),
                (R(T.tee_rejoin2(maxseq=2, skip=())), 'SpecZL', {}),
@@ -40,6 +41,8 @@ def scenarios(quick):
               (R(T.chain3_lazy(maxseq=2)), 'SpecPrompt', 6 if quick else 60, 200),
               (R(T.chain3_empty(maxseq=2)), 'SpecPrompt', 4 if quick else 40, 200),
               (R(T.blocking(T.chain3(maxseq=2, skip=(1,)))), 'SpecPrompt', 6 if quick else 80, 200),
+              # None for one frame, then a set without any of the sink's explicitly subscribed topics
+              (R(T.chain3_none_empty(maxseq=4)), 'SpecPrompt', 6 if quick else 80, 250),
               (R(T.blocking(T.tee_rejoin2(maxseq=2, skip=()), ['S', 'K'])), 'SpecPrompt', 6 if quick else 80, 250)],
         rand=[(R(T.chain3(maxseq=5, skip=(1, 3))), 8 if quick else 150, 1500),
               (R(T.chain3(maxseq=4, slow=True)), 6 if quick else 100, 1500),
@@ -52,6 +55,7 @@ def scenarios(quick):
               (R(T.tee_rejoin_absent(maxseq=6)), 8 if quick else 120, 3000),
               # process() returns an empty dict: it is delivered as an empty set, not dropped
               (R(T.chain3_empty(maxseq=5)), 6 if quick else 100, 1500),
+              (R(T.chain3_none_empty(maxseq=9)), 6 if quick else 100, 2000),
               # blocking applications (MQ.recv() / MQ.send() with timeout = None)
               (R(T.blocking(T.tee_rejoin2(maxseq=4, skip=()))), 6 if quick else 100, 2000),
               (R(T.blocking(T.chain3(maxseq=5, skip=(1, 3)), ['A'])), 6 if quick else 100, 1500)],
@@ -106,6 +110,14 @@ def run(ctx):
         eng.random_runs(topo, n, steps, p_timeout=0.0, judgekw=JK, tag=f'late-{who}', pipekw=dict(local_clocks=False),
                         # K: the task exists but is held back; S: the process does not exist at first (no sockets bound)
                         faults=lambda rng, pipe, who=who: late_faults(rng, who))
+    # an independent join of a fast source and one slower than the request interval, with the real total buffering (the
+    # publisher's SNDHWM of 20 plus libzmq's default RCVHWM of 1000 messages per subscriber): the join re-requests from ALL its
+    # sources while it waits for the slow one, the fast source answers every request with a further frame and runs ahead.
+    # 80 frames fit the buffers; a long stream does not (known finding C03-join-fast-source-runs-ahead).
+    for maxseq, name, steps, n in ((80, 'JoinSlowReq', 9000, 2 if ctx.quick else 10), (700, 'JoinSlowLongReq', 60000, 1 if ctx.quick else 3)):
+        topo = topos.with_required(topos.join_slow(maxseq=maxseq))
+        topo.name = name
+        eng.random_runs(topo, n, steps, p_timeout=0.0, judgekw=JK, tag='slow-branch', pipekw=dict(local_clocks=False, sub_rcvhwm=1000))
     return rep.finish()
 
 
